@@ -302,3 +302,29 @@ pub async fn quiesce_pair(net: &NetHandle) -> bool {
     }
     false
 }
+
+/// A network that fragments and reorders scheduling but never delays by more than a
+/// few microseconds: for scenarios with short idle time-outs, where a slow network would
+/// legitimately trip them
+pub fn draw_fast_net() -> (NetCfg, NetCfg, String) {
+    let mk = || {
+        let mut n = NetCfg::draw();
+        n.latency_us = if choice(2) == 1 { 50 } else { 0 };
+        n.stall_den = 0;
+        n.stall_ms = 0;
+        n.capacity = n.capacity.max(4096);
+        if n.chunk_mode == 1 || n.chunk_mode == 2 {
+            n.chunk_mode = 3;
+        }
+        n
+    };
+    if choice(4) == 0 {
+        let a = NetCfg::plain();
+        (a.clone(), a, "net=plain".into())
+    } else {
+        let a = mk();
+        let b = mk();
+        let d = format!("{} {}", a.describe(), b.describe());
+        (a, b, d)
+    }
+}
